@@ -47,6 +47,8 @@ def cases(tier, seed):
             spec["offset"] = [float(np.round(s * rng.uniform(3, 8), 3)), 0.0 if sym else float(np.round(rng.uniform(-2, 2), 3)),
                               float(np.round(s * rng.uniform(0.3, 2.0) * rng.choice([-1, 1]), 3))]
             surfs.append(dict(name="s%d" % s, symmetry=sym, mesh=spec))
+        if k % 6 == 5:
+            surfs[-1]["mesh_dtype"] = "float32"  # the (last) surface's mesh array is single precision
         flow = rand_flow(rng, any_sym)
         rot = bool(rng.random() < 0.4) and not any_sym
         if rot:
